@@ -463,6 +463,10 @@ def _href_faults(doc, g, e, a, ek, max_requirers):
         out.append(Fault(kind, ak, local, [(a.va, a.vb, "#" + escape(target))], note))
 
     mk("retarget-missing", MISSING_ID)
+    # malformed references: the value goes through a URI parser (empty or invalid scheme before a colon, bad escape, bad authority)
+    cur = _href_id(a.value) or "x"
+    for form in (":#" + cur, "1a:" + cur, "/:" + cur, "%zz" + cur, "http://[::" + cur):
+        out.append(Fault("href-malformed", ak, local, [(a.va, a.vb, escape(form))], form[:6]))
     cont = _drg_container(e)
     cur_target = _href_id(a.value)
     if cont is not None and cont.attr("id") is not None:
